@@ -381,4 +381,11 @@ def obligations(tier, seed):
                   timeout=300 if tier == "quick" else 1200,
                   desc="WAP text-to-WML: one escaped output line per LF-delimited input line (paragraph break for blank ones), unescaping gives the line without trailing blanks",
                   bounds="two lines |l1| <= %d, |l2| <= %d over {a SPACE < & TAB VT FF CR FS NEL}" % (n, 1 if tier == "quick" else 2), functions=["protocols.wap.WAPProtocol.handlerwrite"]))
+    for kind, name in ((0, "http"), (1, "wap")):
+        obs.append(Ob(id="C04.7-selector-decoding[%s]" % name, body="harness.C01:body_decode", sig="kind: int, path: str",
+                      pre=["kind == %d" % kind, "1 <= len(path) <= %d" % (3 if tier == "quick" else 4), "all(c in '/.%2eE' + chr(92) + 'a?' for c in path)", "path[0] == '/'"],
+                      timeout=240 if tier == "quick" else 900,
+                      desc="the file a URL names is the percent-decoding of its path part: the path is split from the query at the first raw '?' and only then decoded, exactly once (a name containing %%3F is not cut)",
+                      bounds="request path symbolic over {/ . %% 2 e E \\ a ?}, |path| <= %d; unquote = tagging stub" % (3 if tier == "quick" else 4),
+                      functions=["protocols.http.HTTPProtocol.handle"]))
     return obs
